@@ -87,11 +87,11 @@ impl Engine for ClusterSimEngine {
         }, PropertyInfo {
             id: "C22",
             level: "exploration",
-            rule: "per run one real ClusterActor (N = 1, rf = 1; 1..32 partitions) and the real RESP server serving one client connection over an in-memory duplex pipe; the simulator is the client and sends a PRNG history of 8-78 commands from the documented grammar as RESP3 arrays, delivered in PRNG chunks (partial frames): EAPPEND and EMAPPEND (1-4 events over 1-4 streams, new and existing streams, multi-stream transactions, every EXPECTED_VERSION form right and wrong, explicit and default partition keys, explicit event ids, boundary timestamps 0 / now / u64::MAX/10^6 and beyond, strict-versioning on or off), EGET of known and unknown ids, ESCAN and EPSCAN with PRNG start/end/count (- and +, count 0..100, by partition id or key), ESVER, EPSEQ, PING, and 12 kinds of invalid request. A reference event-store model decides accept/reject and every reply field: sequences and per-event stream versions reported by appends, event contents and timestamps, scan contents, has_more never false while events of the requested range were left out, versions and sequences; invalid requests must answer an error and the connection must stay usable (a closed connection is a violation). Non-trivial = at least three events stored.",
+            rule: "per run one real ClusterActor (N = 1, rf = 1; 1..32 partitions) and the real RESP server serving one client connection over an in-memory duplex pipe; the simulator is the client and sends a PRNG history of 8-78 commands from the documented grammar as RESP3 arrays, delivered in PRNG chunks (partial frames): EAPPEND and EMAPPEND (1-4 events over 1-4 streams, new and existing streams, multi-stream transactions, every EXPECTED_VERSION form right and wrong, explicit and default partition keys, explicit event ids, boundary timestamps 0 / now / u64::MAX/10^6 and beyond, strict-versioning on or off), EGET of known and unknown ids, ESCAN and EPSCAN with PRNG start/end/count (- and +, count 0..100, by partition id or key), ESVER, EPSEQ, ESUB/EPSUB <target> FROM n WINDOW w with their pushed messages (cursor consecutive, contents and order equal to the model from the start position, outstanding <= window, complete after everything is acknowledged) and EACK (known and unknown subscription), PING, and 12 kinds of invalid request; one append in three has a read pipelined behind it in the same write, half of those with the confirmation actor's mailbox held back (hook K7). A reference event-store model decides accept/reject and every reply field: sequences and per-event stream versions reported by appends, event contents and timestamps, scan contents, has_more never false while events of the requested range were left out, versions and sequences; invalid requests must answer an error and the connection must stay usable (a closed connection is a violation). Non-trivial = at least three events stored.",
             quick_runs: 1200,
             thorough_runs: 40000,
             real_components: &["sierradb_server::server (Conn::run request loop, frame decoding, reply encoding) and every request handler (request/*.rs, parser.rs)", "sierradb_cluster::ClusterActor write and read paths (single node)", "sierradb::Database"],
-            stub_components: &["the TCP socket (in-memory duplex pipe, hook S1)", "subscription commands (ESUB/EPSUB/EACK) are not driven here; subscriptions are checked below the RESP layer in C09"],
+            stub_components: &["the TCP socket (in-memory duplex pipe, hook S1)", "only the single-stream / single-partition forms of ESUB/EPSUB are driven here; the multi and MAP forms are checked below the RESP layer in C09"],
             assumptions: &["single node with rf = 1: every accepted append is confirmed at once, so the model is the plain event-store model"],
         }, PropertyInfo {
             id: "C14",
